@@ -187,3 +187,53 @@ def body_from_registry(n):
         if M.check(z3.Or(viol)): M.emit('cex', what='from_registry', n=n)
         else: M.emit('ok', n=n)
     return body
+
+
+def body_registry_history(n, wrong=False):
+    """bounded black-box history on the real Registry (whatever its fields are): Registry::new(), n leaf types with pairwise distinct TypeIds and
+    small symbolic definitions (so two definitions MAY coincide), then a re-registration of the j-th type (j symbolic), then From<Registry>"""
+    from lib import v14ref
+    from mirsym.models import seq_elems
+    def body(M):
+        M.aux['dictmaps'] = True
+        reg = Cell(M.run_fn(M.resolve('Registry::new'), []))
+        tids = [z3.Const('t%d' % i, TID) for i in range(n)]
+        if n > 1: M.add(z3.Distinct(tids))
+        defs, log = [], []
+        for i in range(n + 1):      # one spare definition: a faulty re-registration may evaluate the (n+1)-th MetaType
+            if n <= 3:      # definitions may coincide (symbolic): dedup-by-content style bugs
+                plen = z3.BitVec('plen%d' % i, 64); prim = z3.BitVec('prim%d' % i, 64)
+                M.add(z3.ULE(plen, 1)); M.add(z3.ULT(prim, 3)); seg = Tok('seg')
+            else:           # long histories: pairwise different concrete definitions (table-size dependent bugs)
+                plen, prim, seg = bv(1, 64), bv(i % 15, 64), Tok('seg%d' % i)
+            defs.append([[VecV(plen, [seg])], VecV(bv(0, 64), []), EnumV('TypeDef', 5, {5: [EnumV('TypeDefPrimitive', prim, {k: [] for k in range(15)})]}), VecV(bv(0, 64), [])])
+        def mk_fn(i):
+            def f(M):
+                log.append(i); return Tok('TYPE%d' % i)
+            return f
+        def m_into_portable(M, a, c, fr):
+            i = int(a[0].name[4:]); return deep_clone(defs[i])
+        M.models.insert(0, (re.compile(r'<ty::Type as IntoPortable>::into_portable'), m_into_portable))
+        viol = []
+        for i in range(n):
+            rv = M.run_fn(M.resolve('Registry::register_type'), [Ref(reg), Ref(Cell([mk_fn(i), tids[i]]))])
+            viol.append(('C01,C05,C11|id of the %d-th distinct type is %d' % (i, i), rv[0] != i))
+        evals_before = list(log)
+        tr = z3.Const('tr', TID); M.add(z3.Or([tr == t for t in tids]))
+        rv = M.run_fn(M.resolve('Registry::register_type'), [Ref(reg), Ref(Cell([mk_fn(n), tr]))])
+        for i in range(n): viol.append(('C05,C11|re-registration returns the id handed out before', z3.And(tr == tids[i], rv[0] != i)))
+        viol.append(('C05|re-registration evaluates nothing', z3.BoolVal(log != evals_before)))
+        viol.append(('C05|every definition evaluated exactly once', z3.BoolVal(sorted(evals_before) != list(range(n)))))
+        pr = M.run_fn(M.resolve('<PortableRegistry as From<Registry>>::from'), [reg.v])
+        ts = seq_elems(M, pr[0])
+        viol.append(('C01,C05|one entry per distinct type', z3.BoolVal(len(ts) != n)))
+        for i, pt in enumerate(ts[:n]):
+            viol.append(('C01|entry %d carries id %d' % (i, i), pt[0] != i))
+            d = []; v14ref.struct_diff(defs[i], pt[1], z3.BoolVal(True), d)
+            viol.append(('C01,C02,C11|entry %d is the definition of the %d-th type' % (i, i), z3.Or([c for _, c in d]) if d else z3.BoolVal(False)))
+        if wrong: viol = [('C01,C05,C11|WRONG', z3.BoolVal(True))]
+        m = M.model(z3.Or([c for _, c in viol]))
+        if m is None: M.emit('ok', conjuncts=sorted({w for w, _ in viol}))
+        else: M.emit('cex', what='registry_history', n=n, failed=sorted({w for w, c in viol if z3.is_true(m.eval(c, model_completion=True))})[:6],
+                     coincide=[[i, j] for i in range(n) for j in range(i + 1, n) if z3.is_true(m.eval(z3.And(defs[i][0][0].len == defs[j][0][0].len, defs[i][2].payloads[5][0].discr == defs[j][2].payloads[5][0].discr), model_completion=True))])
+    return body
